@@ -49,10 +49,10 @@ def plan(tier, prop):
     quick = tier == "quick"
     c03 = prop == "C03"
     return {
-        "runs": (12000 if quick else 500000) if not c03 else
-                (12000 if quick else 600000),
+        "runs": (18000 if quick else 600000) if not c03 else
+                (25000 if quick else 800000),
         "budget_s": 55 if quick else 800,
-        "chunk": 10 if quick else 50,
+        "chunk": 50 if quick else 100,
         "chunk_timeout_s": 900,
         "rule": "each run = one drawn machine (size, torus/mesh, dead chips, "
                 "dead links in one or both directions, unresponsive chips, "
